@@ -126,6 +126,11 @@ func (ex *Exec) evalCall(e *ast.CallExpr, st *State) Value {
 						bvs = append(bvs, bv)
 						return bv
 					}
+					if isString(t) {
+						bv := ex.ts.Fresh("q."+name, IntSort)
+						bvs = append(bvs, bv)
+						return &StrV{T: bv}
+					}
 					if stt, ok := t.Underlying().(*types.Struct); ok {
 						sv := &StructV{Fields: make([]Value, stt.NumFields())}
 						for i := range sv.Fields {
@@ -749,15 +754,22 @@ func (ex *Exec) callUninterpreted(fi *FuncInfo, args []Value, st *State) Value {
 		ex.flattenAny(a, st, &flat)
 	}
 	res := resultTypes(fi)
-	if len(res) != 1 {
-		unsupported("uninterpreted %s: exactly one result expected", fi.Decl.Name.Name)
+	if len(res) == 0 {
+		unsupported("uninterpreted %s: a result is expected", fi.Decl.Name.Name)
 	}
 	nm := fi.Pkg.Name + "." + fi.Decl.Name.Name
 	if sig := fi.Obj.Type().(*types.Signature); sig.Recv() != nil {
 		nm = fi.Pkg.Name + "." + recvTypeName(sig.Recv().Type()) + "." + fi.Decl.Name.Name
 	}
 	ex.assumptions["calls of "+nm+" treated as an uninterpreted pure function in this block (no panic for in-range arguments and its meaning are established by lemmas of its own package that inline it)"] = true
-	return ex.ufResult("pure."+nm, res[0], flat, st)
+	if len(res) == 1 {
+		return ex.ufResult("pure."+nm, res[0], flat, st)
+	}
+	tv := &TupleV{}
+	for i, rt := range res {
+		tv.Vals = append(tv.Vals, ex.ufResult("pure."+nm+"#"+itoa(i), rt, flat, st))
+	}
+	return tv
 }
 
 func (ex *Exec) checkPure(fi *FuncInfo) {
